@@ -1104,11 +1104,14 @@ func runSession(t *testing.T, cfg *sessCfg, job *sessJob, rng *mrand.Rand, sched
 		case "InjectData": // a datagram with application-looking payload from the attacker's or the peer's address
 			pidCtr++
 			peer := other(c.ag)
-			srcs := []string{"x9", cfg.Loc[peer][0]}
-			if p, ok := cfg.Nat[srcs[1]]; ok {
-				srcs[1] = p
+			srcs := []string{"x9"}
+			for _, l := range cfg.Loc[peer] {
+				if p, ok := cfg.Nat[l]; ok {
+					l = p
+				}
+				srcs = append(srcs, l)
 			}
-			src := srcs[rng.Intn(2)]
+			src := srcs[rng.Intn(len(srcs))]
 			if c.want != nil {
 				src, _ = c.want["src"].(string)
 			}
